@@ -11,3 +11,9 @@ func VerifResetFaceTable() {
 	dispatch.FaceDispatch.Range(func(k, _ any) bool { dispatch.FaceDispatch.Delete(k); return true })
 	FaceTable.nextFaceID.Store(10) // ids below 10 are used by the scenarios for routes of faces that are torn down
 }
+
+// VerifSetQueueSize sets the face queue size that Configure() would read from the configuration.
+func VerifSetQueueSize(n int) { faceQueueSize = n }
+
+// VerifSendQueueLen is the number of frames an internal component has sent and nobody consumed.
+func (t *InternalTransport) VerifSendQueueLen() int { return len(t.sendQueue) }
